@@ -1190,7 +1190,9 @@ class Frame:
         cond = T.and_(conds)
         key = keys[0] if len(keys) == 1 else ('nest', tuple(keys))
         if cond == TRUE:
-            return ('map', key, elt)
+            m = ('map', key, elt)
+            ss = T.stride_slice(m)
+            return ss if ss is not None else m
         fm = ('filtermap', key, cond, elt)
         ps = T.parity_slice(fm)
         return ps if ps is not None else fm
